@@ -51,7 +51,14 @@ func InstallRedelegation(e *env.Env, d, src, dst, a int, amt math.Int, completio
 		DstValidatorAddress: Vals[dst].String(),
 		Balance:             sdk.Coin{Denom: Denoms[a], Amount: amt},
 	}
-	if err := e.Store.Set(types.GetRedelegationKey(Dels[d], Denoms[a], Vals[dst], completion), e.Codec().MustMarshal(&r)); err != nil {
+	rk := types.GetRedelegationKey(Dels[d], Denoms[a], Vals[dst], completion)
+	rec := r
+	if b, _ := e.Store.Get(rk); b != nil {
+		// addRedelegation merges into an existing record (same delegator, denom, destination, time)
+		e.Codec().MustUnmarshal(b, &rec)
+		rec.Balance = rec.Balance.Add(r.Balance)
+	}
+	if err := e.Store.Set(rk, e.Codec().MustMarshal(&rec)); err != nil {
 		panic(err)
 	}
 	if err := e.Store.Set(types.GetRedelegationIndexKey(Vals[src], completion, Denoms[a], Vals[dst], Dels[d]), []byte{}); err != nil {
